@@ -18,6 +18,9 @@ CONFIGS = {
     "C02": {"quick": ["GenG1_syms_q.cfg"], "thorough": ["GenG1_syms_t.cfg"]},
     "C04": {"quick": ["GenG1_ann_q.cfg"], "thorough": ["GenG1_ann_t.cfg"]},
     "C06": {"quick": ["GenG1_fn_q.cfg"], "thorough": ["GenG1_fn_t.cfg"]},
+    "C03": {"quick": ["GenG1_cfg_q.cfg"], "thorough": ["GenG1_cfg_t.cfg"]},
+    "C05": {"quick": ["GenG1_syms_q.cfg", "GenG1_cfg_q.cfg"],
+            "thorough": ["GenG1_syms_t.cfg", "GenG1_cfg_t.cfg", "GenG1_ann_q.cfg"]},
 }
 SAMPLE = {"quick": 3000, "thorough": 60000}
 RULES = {
@@ -51,6 +54,34 @@ def sample_cases(src: str, dst: str, n: int, rng: random.Random, tag: str) -> in
     return len(chosen)
 
 
+def expand_faults(cases_path: str, rng: random.Random) -> int:
+    """C05: every case with n patch invocations is also run n times with an
+    exception injected into the k-th patch callback (k = 1..n), and once with
+    a patch that does not assemble."""
+    out = []
+    with open(cases_path) as f:
+        for line in f:
+            c = json.loads(line)
+            out.append(c)
+            n = sum(1 for q in c["reqs"] if q["op"] in ("ins", "rep")
+                    and q["patch"].get("kind") != "bytes")
+            for k in range(1, n + 1):
+                d = dict(c)
+                d["id"] = f"{c['id']}-f{k}"
+                d["fault"] = k
+                out.append(d)
+            if n:
+                d = dict(c)
+                d["id"] = f"{c['id']}-asm"
+                d["fault"] = rng.randint(1, n)
+                d["fault_kind"] = "asm"
+                out.append(d)
+    with open(cases_path, "w") as f:
+        for c in out:
+            f.write(json.dumps(c, separators=(",", ":")) + "\n")
+    return len(out)
+
+
 def run(prop: str, tier: str, replay: str = None) -> int:
     rep = Report(prop, tier)
     rng = random.Random(core.seed() * 1000003 + hash(prop) % 1000)
@@ -77,8 +108,11 @@ def run(prop: str, tier: str, replay: str = None) -> int:
                             agg.write(line)
                     rep.extra.setdefault("generated_cases", 0)
                     rep.extra["generated_cases"] += res["emitted"]
-            n = sample_cases(allc, cases, SAMPLE[tier], rng, prop)
+            n = sample_cases(allc, cases, SAMPLE[tier] // (2 if prop == "C05" else 1), rng, prop)
             os.remove(allc)
+            if prop == "C05":
+                n = expand_faults(cases, rng)
+                rep.level = "fault_enumeration"
         shards = core.split_file(cases, 16, wd, "cases")
         traces = core.run_module_parallel("harness.g1.runner", shards, wd, "g1")
         verdicts = tlc.validate_sharded("TraceG1.tla", "TraceG1.cfg", traces, jobs=16)
@@ -97,14 +131,14 @@ def run(prop: str, tier: str, replay: str = None) -> int:
             "gtirb / gtirb-layout are trusted substrate",
             "bounds of the generation config (see mc_runs)",
         ]
-        return rep.finish()
+        return rep.finish(write_evidence=not replay)
     finally:
         tlc.cleanup(wd)
 
 
 def judge(rep: Report, prop: str, verdicts: List[dict], case_by_id: Dict[str, dict]) -> None:
     known = {k["id"]: k for k in core.load_known() if k.get("status") == "open"
-             and k["property"] == prop}
+             and prop in k.get("properties", [k["property"]])}
     pre = prop + "_"
     for v in verdicts:
         rep.traces += 1
@@ -120,9 +154,9 @@ def judge(rep: Report, prop: str, verdicts: List[dict], case_by_id: Dict[str, di
         for fl in v["failed"]:
             if not fl["clause"].startswith(pre):
                 continue
-            kfs = [k for k in fl.get("kf", []) if k in known]
-            if kfs:
-                for k in kfs[:1]:
+            kfs = fl.get("kf", [])
+            if kfs and all(k in known for k in kfs):
+                for k in kfs:
                     rep.known_matched[k] = rep.known_matched.get(k, 0) + 1
                 continue
             path = core.write_replay(prop, fl["clause"], case, fl.get("diff"))
